@@ -319,6 +319,20 @@ func (f *facts) flowTables(conn, tr *ast.File) string {
 					return neg + "alone"
 				}
 			}
+			// the deadline test of the yield branch: `!deadline.IsZero() && !time.Now().Before(deadline)`
+			if c, isC := e.(*ast.CallExpr); isC {
+				switch p := src(f.fset, c.Fun); {
+				case strings.HasSuffix(p, ".IsZero"):
+					return "!hasDeadline"
+				case strings.HasSuffix(p, ".Before") || strings.HasSuffix(p, ".After"):
+					if strings.Contains(src(f.fset, c), "time.Now()") {
+						if strings.HasSuffix(p, ".Before") {
+							return "!deadlinePassed" // time.Now().Before(deadline)
+						}
+						return "deadlinePassed"
+					}
+				}
+			}
 			return ""
 		}
 		effect := func(n ast.Node) string {
@@ -338,7 +352,7 @@ func (f *facts) flowTables(conn, tr *ast.File) string {
 			}
 			return ""
 		}
-		rows, unk := f.runScenarios(fd, []string{"peekFailed", "idMatches", "alone"}, classify, effect)
+		rows, unk := f.runScenariosFixed(fd, []string{"peekFailed", "idMatches", "alone", "deadlinePassed"}, map[string]bool{"hasDeadline": true}, nil, classify, effect)
 		emit("waitResponseFlow", rows, unk)
 	}
 
@@ -559,6 +573,17 @@ func (f *facts) flowTables(conn, tr *ast.File) string {
 	}
 	if fd := findFunc(f.files["dialer.go"], "Dialer", "connect"); fd != nil {
 		last = ""
+		ctxOK := ""
+		ast.Inspect(fd.Body, func(n ast.Node) bool {
+			if as, ok := n.(*ast.AssignStmt); ok && len(as.Lhs) == 2 && len(as.Rhs) == 1 {
+				if c, ok := as.Rhs[0].(*ast.CallExpr); ok && strings.HasSuffix(selPath(c.Fun), ".Deadline") {
+					if id, ok := as.Lhs[1].(*ast.Ident); ok {
+						ctxOK = id.Name
+					}
+				}
+			}
+			return true
+		})
 		classify := errClassify(map[string]string{"dial": "dialFailed", "split": "splitFailed", "auth": "authFailed"}, func(e ast.Expr) string {
 			t := src(f.fset, e)
 			switch {
@@ -569,6 +594,10 @@ func (f *facts) flowTables(conn, tr *ast.File) string {
 			case strings.HasSuffix(t, ".SASLMechanism != nil"):
 				return "sasl"
 			}
+			// `if deadline, ok := ctx.Deadline(); ok`: followed with a context that has a deadline (Timeout / Deadline set)
+			if id, isID := e.(*ast.Ident); isID && ctxOK != "" && id.Name == ctxOK {
+				return "ctxHasDeadline"
+			}
 			return ""
 		})
 		effect := func(n ast.Node) string {
@@ -576,6 +605,11 @@ func (f *facts) flowTables(conn, tr *ast.File) string {
 			case *ast.CallExpr:
 				p := selPath(x.Fun)
 				switch {
+				case strings.HasSuffix(p, ".SetDeadline") && len(x.Args) == 1:
+					if src(f.fset, x.Args[0]) == "time.Time{}" {
+						return "clearDeadline"
+					}
+					return "setDeadline"
 				case strings.HasSuffix(p, ".dialContext"):
 					last = "dial"
 					return "dial"
@@ -599,7 +633,7 @@ func (f *facts) flowTables(conn, tr *ast.File) string {
 			return ""
 		}
 		rows, unk := f.runScenariosFixed(fd, []string{"dialFailed", "sasl", "splitFailed", "authFailed"},
-			map[string]bool{"hasTimeout": false, "noDeadline": true}, nil, classify, effect)
+			map[string]bool{"hasTimeout": false, "noDeadline": true, "ctxHasDeadline": true}, nil, classify, effect)
 		emit("dialerConnectFlow", rows, unk)
 	}
 	if fd := findFunc(tr, "connGroup", "connect"); fd != nil {
@@ -657,6 +691,11 @@ func (f *facts) flowTables(conn, tr *ast.File) string {
 					return "apiVersions"
 				case strings.HasSuffix(p, ".SetVersions"):
 					return "setVersions"
+				case strings.HasSuffix(p, ".SetDeadline") && len(x.Args) == 1:
+					if src(f.fset, x.Args[0]) == "time.Time{}" {
+						return "clearDeadline"
+					}
+					return "setDeadline"
 				case p == "splitHostPortNumber":
 					last = "split"
 					return "split"
